@@ -29,6 +29,9 @@ def corpus():
         "run prop=C05 mode=constant rate=3/100ms dur=900 conc=3 body=20 cancel=250",
         "run prop=C05 mode=constant rate=1/100ms dur=900 conc=2 block=2 timeout=300",
         "run prop=C05 mode=users conc=5 dur=400 body=15",
+        "run prop=C05 mode=users conc=5 dur=1000 body=5 maxit=2 retmax=3000",        # more users than iterations left
+        "run prop=C05 mode=users conc=64 dur=800 body=1 maxit=7 retmax=3000",
+        "run prop=C05 mode=file dur=3000 conc=2 maxit=3 file=c:200:1/100ms;u:2000:6 body=5 retmax=2500",
         "run prop=C05 mode=constant rate=5/100ms dur=600 conc=4 setupfail=1",
         "raterun.stop inflight 5 40 10", "raterun.stop due 5 40 10",
         "run prop=C05 mode=constant rate=2/100ms dur=2500 conc=2 body=5 cancel=1100 stallprogress=500",   # interrupted while a progress line is being reported
